@@ -112,6 +112,22 @@ def screen_check(pid, tier, seed, families, rules_note, need_paints=True, level=
     return dict(level=level, coverage=coverage, assumptions=assumptions, failures=all_fail)
 
 
+def add_final_state_clause(res, pid, tier, seed, families):
+    """schedule clause shared by C01 / C02 / C16 (Linear.tla, Trace_Linear.tla): concurrent calls, final terminal and getters = those of some sequential order"""
+    import props_sync
+    fc = props_sync.final_state_clause(pid, tier, seed, families)
+    cov = res["coverage"]
+    cov["states"] += fc["states"]
+    cov["transitions"] += fc["transitions"]
+    cov["traces_validated_against_impl"] += fc["runs"]
+    cov["records_validated"] += fc["records"]
+    cov["final_state_clause"] = {"runs": fc["runs"], "clause_counts": fc["stats"], "sample": fc["sample"], "families": [list(f) for f in families],
+                                 "rule": "MC_Linear programs (thread 0: 1-2 calls, thread 1: 1 call%s) x preemption-bounded schedules (k steps of one thread, j of the other, k, j <= K) under the "
+                                         "controlled scheduler; Trace_Linear: final terminal and getters are those of some sequential order of the calls (Linear.tla)" % ("-2 calls" if tier != "quick" else "")}
+    res["failures"] += fc["fails"]
+    return res
+
+
 def c01(pid, tier, seed):
     q = tier == "quick"
     fams = [
@@ -144,9 +160,11 @@ def c01(pid, tier, seed):
             TextShapes=("T", "TW", "TW1", "TnlT", "e"), Tpls=("M", "PM", "PnM", "MnC", "LM"), Fins=("AndLeave", "AndClear", "Abandon", "WithMessage"),
             DTs=(0, 1000), mode=("sim", 400 if q else 4000, 32)),
     ]
-    return screen_check(pid, tier, seed, fams,
+    res = screen_check(pid, tier, seed, fams,
                         "histories = every sequence of D operations over the family's alphabet (bfs) or random walks (sim) of MC_Screen; "
                         "each record is judged by Trace_Screen: ScreenOK/LogOK/CursorOK/QuietOK/ForcedOK/GetOK")
+    # concurrent callers of one stand-alone bar (suspend closures, println, finish, reset against tick / inc / set_message from another thread)
+    return add_final_state_clause(res, pid, tier, seed, [("single", 4, False)] if q else [("single", 6, True)])
 
 
 def c02(pid, tier, seed):
@@ -200,7 +218,8 @@ def c02(pid, tier, seed):
     cov["records_validated"] += sc["records"]
     cov["schedule_clause"] = {"runs": sc["runs"], "clause_counts": sc["stats"], "sample": sc["sample"]}
     res["failures"] += sc["fails"]
-    return res
+    # suspend / println / finish of one thread against draws of another: the final screen is that of some sequential order
+    return add_final_state_clause(res, pid, tier, seed, [("multi", 4, False)] if q else [("multi", 6, True)])
 
 
 def c03(pid, tier, seed):
@@ -264,9 +283,11 @@ def c16(pid, tier, seed):
         fam("tabs_multi", conf="multi", W=40, H=12, Multi=True, MaxBars=2, D=4 if q else 5, BarOps=("set_tab_width", "set_style", "copy_style", "set_message", "abandon_with_message", "tick"),
             MsgShapes=("tab",), Tpls=("TM", "KM"), TabWs=(8, 1), Fins=("AndLeave",), shards=12),
     ]
-    return screen_check(pid, tier, seed, fams,
+    res = screen_check(pid, tier, seed, fams,
                         "every order of set_tab_width/with_tab_width, set_style/with_style, set_message/set_prefix/finish_with_message over tab widths {0,1,4,8}; "
                         "NoTab = no TAB cell reaches the terminal, ScreenOK = each tab is tab-width spaces, GetOK = message()/prefix() are expanded")
+    # the same calls issued from two threads: whatever the interleaving, the texts end up expanded with the tab width in force at the end
+    return add_final_state_clause(res, pid, tier, seed, [("tabs", 5, False)] if q else [("tabs", 8, True)])
 
 
 def c19(pid, tier, seed):
